@@ -289,6 +289,239 @@ def impl_diff(case):
             "got_dtype": str(gd.dtype), "want_dtype": str(want.dtype)}
 
 
+
+# ------------------------------------------------------------------ programs (2-5 steps) against NumPy
+PROG_BIN = {"add": "add", "sub": "subtract", "mul": "multiply", "maximum": "maximum", "minimum": "minimum"}
+PROG_IOP = {"add": "iadd", "sub": "isub", "mul": "imul"}
+
+
+def _prog_operand(env, o):
+    return env[o[1]] if o[0] == "v" else o[1]
+
+
+def _prog_step(env, st, lib):
+    """execute one step on the environment env (list of arrays, NumPy or sparse alike);
+    returns (index of the variable bound/updated, fresh-object obligations [(new, operand)])"""
+    import operator
+
+    import numpy as np
+    k = st["k"]
+    if k == "astype":
+        src = env[st["src"]]
+        kw = {} if st["copy"] is None else {"copy": st["copy"]}
+        r = src.astype(np.dtype(st["dtype"]) if st["spell"] == "dtype" else st["dtype"], **kw)
+        env.append(r)
+        return [(r, src)] if st["copy"] is not False else []
+    if k == "unary":
+        src = env[st["src"]]
+        fn = st["fn"]
+        if fn == "round":
+            r = src.round()
+        elif fn == "clip":
+            r = src.clip(st["lo"], st["hi"])
+        elif fn == "abs":
+            r = abs(src)
+        elif fn == "neg":
+            r = -src
+        elif fn == "conjugate":
+            r = np.conjugate(src)
+        elif fn == "conj":
+            r = src.conj()
+        elif fn == "real":
+            r = src.real
+        else:
+            raise KeyError(fn)
+        env.append(r)
+        return [(r, src)] if fn in ("round", "clip", "abs", "neg", "conjugate") else []
+    if k == "binary":
+        a, b = _prog_operand(env, st["a"]), _prog_operand(env, st["b"])
+        r = getattr(np, PROG_BIN[st["op"]])(a, b)
+        env.append(r)
+        return [(r, x) for x in (a, b) if not isinstance(x, (int, float))]
+    if k == "iop":
+        t = env[st["t"]]
+        r = getattr(operator, PROG_IOP[st["op"]])(t, _prog_operand(env, st["b"]))
+        if r is not t:
+            raise RuntimeError("in-place operator returned another object")
+        return []
+    if k == "out":
+        t = env[st["t"]]
+        r = getattr(np, PROG_BIN[st["op"]])(_prog_operand(env, st["a"]), _prog_operand(env, st["b"]), out=t)
+        if r is not t:
+            raise RuntimeError("out= returned another object")
+        return []
+    if k == "mout":
+        t, src = env[st["t"]], env[st["src"]]
+        r = src.round(out=t) if st["fn"] == "round" else src.clip(st["lo"], st["hi"], out=t)
+        if r is not t:
+            raise RuntimeError("out= returned another object")
+        return []
+    raise KeyError(k)
+
+
+def impl_program(case):
+    """run the program on NumPy arrays and on sparse arrays; compare every variable at the end (shape, dtype,
+    every element) and the fresh-object obligations (the result of astype(copy=True/default), round, clip,
+    abs, neg, a ufunc must not BE one of its operands)"""
+    import warnings
+
+    import numpy as np
+    import sparse
+    warnings.filterwarnings("ignore")
+    mk = {"coo": sparse.COO.from_numpy, "gcxs": sparse.GCXS.from_numpy, "dok": sparse.DOK.from_numpy}[case["format"]]
+    envn, envs = [], []
+    for a in case["init"]:
+        x = np.array(a["flat"], dtype=a["dtype"]).reshape(tuple(a["shape"]))
+        envn.append(x.copy())
+        envs.append(mk(x))
+    problems = []
+    with np.errstate(all="ignore"):
+        for i, st in enumerate(case["steps"]):
+            nn, ns = len(envn), len(envs)
+            en = es = None
+            try:
+                _prog_step(envn, st, np)
+            except Exception as ex:  # noqa: BLE001
+                en = type(ex).__name__
+                del envn[nn:]
+            try:
+                fresh = _prog_step(envs, st, sparse)
+            except Exception as ex:  # noqa: BLE001
+                es = type(ex).__name__ + ": " + str(ex)[:80]
+                del envs[ns:]
+                fresh = []
+            if (en is None) != (es is None):
+                problems.append({"step": i, "what": "exception", "numpy": en, "sparse": es})
+                break
+            for r, operand in fresh:
+                if r is operand:
+                    problems.append({"step": i, "what": "fresh_object", "detail": f"step {st['k']} returned its operand itself"})
+    if not any(p["what"] == "exception" for p in problems):
+        for j, (xn, xs) in enumerate(zip(envn, envs, strict=True)):
+            try:
+                d = xs.todense() if hasattr(xs, "todense") else np.asarray(xs)
+            except Exception as ex:  # noqa: BLE001
+                problems.append({"var": j, "what": "unreadable", "detail": type(ex).__name__ + ": " + str(ex)[:80]})
+                continue
+            if d.shape != xn.shape:
+                problems.append({"var": j, "what": "shape", "sparse": list(d.shape), "numpy": list(xn.shape)})
+            elif not np.array_equal(d, xn, equal_nan=True):
+                bad = np.argwhere(d != xn)
+                idx = tuple(int(v) for v in bad[0])
+                problems.append({"var": j, "what": "value", "n": int(len(bad)), "at": list(idx),
+                                 "sparse": float(d[idx]), "numpy": float(xn[idx])})
+            elif d.dtype != xn.dtype:
+                problems.append({"var": j, "what": "dtype", "sparse": str(d.dtype), "numpy": str(xn.dtype)})
+    return {"ok": not problems, "problems": problems[:6]}
+
+
+def gen_program_cases(tier, rng):
+    out = []
+    n = 1500 if tier == "quick" else 8000
+    for _ in range(n):
+        nd = rng.choice([1, 2, 2, 3])
+        full = [rng.choice([1, 2, 3]) for _ in range(nd)]
+        fmt = rng.choice(["coo", "coo", "coo", "gcxs", "dok"])
+        dt0 = rng.choice(["float64", "float64", "float64", "float32", "int64"])
+
+        def arr(shape, dt):
+            m = 1
+            for d in shape:
+                m *= d
+            vals = [rng.choice([0, 0, 0, 1, 2, -1, 3]) * (1 if dt == "int64" else rng.choice([1, 0.5])) for _ in range(m)]
+            return {"shape": list(shape), "flat": vals, "dtype": dt}
+        sub = [d if rng.random() < 0.6 else 1 for d in full][rng.choice([0, 0, rng.randint(0, nd - 1)]):]
+        init = [arr(full, dt0), arr(sub, rng.choice([dt0, "float64"]))]
+        # python-side bookkeeping: which variables have the full shape / may be in-place targets
+        shapes = [list(full), list(sub)]
+        dts = [dt0, init[1]["dtype"]]
+        target_ok = [True, False]
+        steps = []
+
+        def operand(allow_scalar=True):
+            if allow_scalar and rng.random() < 0.35:
+                return ["s", rng.choice([1.5, 2, -1, 0.5, 3, 0])]
+            return ["v", rng.randrange(len(shapes))]
+
+        def bshape(a, b):
+            sa = shapes[a[1]] if a[0] == "v" else []
+            sb = shapes[b[1]] if b[0] == "v" else []
+            return np_bshape([sa, sb])
+        nsteps = rng.randint(2, 5)
+        # the first step is biased to the element-wise methods, a later one to in-place forms
+        for si in range(nsteps):
+            targets = [i for i, ok in enumerate(target_ok) if ok and shapes[i] == full]
+            r = rng.random()
+            if si == 0 or r < 0.3:
+                src = rng.randrange(len(shapes))
+                if rng.random() < 0.6:
+                    same = rng.random() < 0.6
+                    dt = dts[src] if same else rng.choice([d for d in ("float64", "float32", "int64") if d != dts[src]])
+                    spell = rng.choice(["dtype", "str"])
+                    copy = rng.choice([None, None, True, False])
+                    code = {"float64": "f8", "float32": "f4", "int64": "i8"}[dt] if spell == "str" and rng.random() < 0.5 else dt
+                    steps.append({"k": "astype", "src": src, "dtype": code, "spell": spell, "copy": copy})
+                    shapes.append(shapes[src])
+                    dts.append(dt)
+                    # with copy=False and an unchanged dtype NumPy returns the operand itself: same aliasing expected
+                    target_ok.append(True)
+                else:
+                    fn = rng.choice(["round", "clip", "abs", "neg", "conjugate"])   # ndarray.conj()/.real alias their operand in NumPy
+                    st = {"k": "unary", "src": src, "fn": fn}
+                    if fn == "clip":
+                        st["lo"] = rng.choice([-1, 0, 0.5])
+                        st["hi"] = st["lo"] + rng.choice([0.5, 1, 2])
+                    steps.append(st)
+                    shapes.append(shapes[src])
+                    dts.append(dts[src] if not (fn == "clip" and dts[src] == "int64") else "float64")
+                    target_ok.append(fn not in ("conj", "real"))        # ndarray.conj()/.real may alias in NumPy
+            elif r < 0.5 or not targets:
+                a, b = operand(False), operand()
+                if bshape(a, b) is None:
+                    continue
+                steps.append({"k": "binary", "op": rng.choice(sorted(PROG_BIN)), "a": a, "b": b})
+                shapes.append(bshape(a, b))
+                dts.append("float64")
+                target_ok.append(True)
+            else:
+                t = rng.choice(targets)
+                kind = rng.choice(["iop", "iop", "out", "mout"])
+                if kind == "iop":
+                    b = operand()
+                    if bshape(["v", t], b) != full:
+                        continue
+                    steps.append({"k": "iop", "op": rng.choice(sorted(PROG_IOP)), "t": t, "b": b})
+                elif kind == "out":
+                    a, b = ["v", t] if rng.random() < 0.6 else operand(False), operand()
+                    if bshape(a, b) != full:
+                        continue
+                    steps.append({"k": "out", "op": rng.choice(sorted(PROG_BIN)), "t": t, "a": a, "b": b})
+                else:
+                    cands = [i for i in range(len(shapes)) if shapes[i] == full]
+                    st = {"k": "mout", "fn": rng.choice(["round", "clip"]), "t": t, "src": rng.choice(cands)}
+                    if st["fn"] == "clip":
+                        st["lo"] = rng.choice([-1, 0, 0.5])
+                        st["hi"] = st["lo"] + rng.choice([0.5, 1, 2])
+                    steps.append(st)
+        if len(steps) >= 2:
+            out.append({"format": fmt, "init": init, "steps": steps})
+    # the directed shape  y = x.astype(...); y op= ...; r = x - y  for every dtype spelling / copy / format
+    for fmt in ("coo", "gcxs", "dok"):
+        for dt0 in ("float64", "float32", "int64"):
+            for same in (True, False):
+                for copy in (None, True, False):
+                    for form in ("iop", "out", "mout"):
+                        dt = dt0 if same else ("float32" if dt0 == "float64" else "float64")
+                        init = [{"shape": [2, 3], "flat": [0, 1.0, 0, 2, 0, 3], "dtype": dt0},
+                                {"shape": [3], "flat": [2, 0, 1], "dtype": dt0}]
+                        upd = {"iop": {"k": "iop", "op": "add", "t": 2, "b": ["s", 2]},
+                               "out": {"k": "out", "op": "mul", "t": 2, "a": ["v", 2], "b": ["v", 1]},
+                               "mout": {"k": "mout", "fn": "clip", "lo": 0, "hi": 1, "t": 2, "src": 0}}[form]
+                        out.append({"format": fmt, "init": init, "steps": [
+                            {"k": "astype", "src": 0, "dtype": dt, "spell": "dtype", "copy": copy}, upd,
+                            {"k": "binary", "op": "sub", "a": ["v", 0], "b": ["v", 2]}]})
+    return out
+
 # ------------------------------------------------------------------ generators
 EXT = (0, 1, 2, 3)
 
@@ -732,6 +965,7 @@ def campaign(build, tier, seed, report, budget=1):
     api = gen_api_cases(tier, rng)
     kern = gen_kernel_cases(tier, rng)
     diff = gen_diff_cases(tier, rng)
+    progs = gen_program_cases(tier, rng)
     if budget > 1:
         rng2 = random.Random(seed + 1)
         for _ in range(budget - 1):
@@ -739,6 +973,7 @@ def campaign(build, tier, seed, report, budget=1):
     res_api = vlib.run_impl("props.c01", "impl_api", api, workers=6)
     res_k = vlib.run_impl("props.c01", "impl_kernel", kern, workers=6)
     res_d = vlib.run_impl("props.c01", "impl_diff", diff, workers=6)
+    res_p = vlib.run_impl("props.c01", "impl_program", progs, workers=6)
     t_impl = time.time() - t0
 
     imports = "From Verif Require Import Py Shape COO GCXS NpElemwise Elemwise SArr C01Judge."
@@ -797,6 +1032,17 @@ def campaign(build, tier, seed, report, budget=1):
                      "case": c, "impl": r,
                      "replay_py": "import sys; sys.path.insert(0, '/verif/tools'); from props import c01; "
                                   f"print(c01.impl_diff({c!r}))"})
+    # ---- programs (multi-step, in-place / out= / re-use of earlier values) against NumPy
+    pbad = [(c, r) for c, r in zip(progs, res_p, strict=True) if not r.get("ok")]
+    for c, r in pbad:
+        probs = r.get("problems") or [{"what": "worker", "detail": str(r)[:200]}]
+        what = probs[0].get("what")
+        clause = {"fresh_object": "programs_fresh_object_obligation", "value": "programs_value_after_inplace_or_reuse",
+                  "exception": "programs_exception_mismatch", "dtype": "programs_dtype"}.get(what, "programs_" + str(what))
+        viol.append({"property": "C01", "op": "program", "kind": "value", "clause": clause, "format": c["format"],
+                     "step_kinds": [st["k"] for st in c["steps"]], "case": c, "impl": r,
+                     "replay_py": "import sys; sys.path.insert(0, '/verif/tools'); from props import c01; "
+                                  f"print(c01.impl_program({c!r}))"})
     # ---- coverage
     cov = report["coverage"]
     tags = {}
@@ -812,7 +1058,15 @@ def campaign(build, tier, seed, report, budget=1):
         o = r.get("out", {})
         if isinstance(o, dict) and o.get("k") in ("coo", "gcxs", "dok") and len(o.get("data", o.get("items", []))) > 0:
             nontrivial.add(vlib.digest([c["op"], c["form"], c["args"]]))
-    cov["evaluations"] = len(api) + len(kern) + len(e2)
+    cov["evaluations"] = len(api) + len(kern) + len(e2) + len(progs)
+    cov["program_cases"] = {"cases": len(progs), "mismatches": len(pbad),
+                            "with_inplace_or_out": sum(1 for c in progs if any(st["k"] in ("iop", "out", "mout") for st in c["steps"])),
+                            "with_same_dtype_astype_then_update": sum(
+                                1 for c in progs if any(st["k"] == "astype" for st in c["steps"])
+                                and any(st["k"] in ("iop", "out", "mout") for st in c["steps"])),
+                            "note": "2-5 step programs run on NumPy arrays and on sparse arrays; every variable compared at the "
+                                    "end (shape, dtype, every element) + fresh-object obligations (differential, plus the "
+                                    "theorems astype_object_spec / astype_copy_fresh about the generated astype condition)"}
     cov["api_cases"] = len(api)
     cov["kernel_cases"] = {g: len(v) for g, v in groups.items()}
     cov["kernel_mismatches"] = kernel_bad
